@@ -387,6 +387,13 @@ class Case:
         if self.wire is not None and "error" not in self.res:
             ctol, atol = self.tolerances()
             for kind, ans in zip(self.kinds, answers):
+                if isinstance(ans, str) and kind == "model" and ans.startswith("err:"):
+                    # the extraction model rejects the assignment the real solver returned (e.g. it selects an infinite
+                    # entry of the model's matrix): the code solved a different problem than the model - a correspondence
+                    # break; the statement's clauses on the returned rows (below) decide whether a failing input was found
+                    corr = "extraction model rejects the solver's assignment (%s)" % ans
+                    ctx.count("model_rejects_solver_assignment")
+                    continue
                 if isinstance(ans, str):
                     raise common.HarnessError("driver answered %r for a %s line of %r" % (ans, kind, self.desc()))
                 if kind == "cert" and fn == "bn":
@@ -567,6 +574,11 @@ def run(ctx):
         for _ in range(cnt):
             a, b, mode, e = gen_pair(ctx, nmax)
             pairs.append((a, b, e, mode))
+            if len(a) != len(b) and r.random() < 0.3:
+                # the same two diagrams in the other order right afterwards: same M+N, different split - state that an
+                # implementation carries from one call to the next (cached matrices) shows here
+                pairs.append((b, a, e, mode))
+                ctx.count("swapped_followup_pairs")
     hs_pairs = []
     with Capture() as cap:
         batch = []
